@@ -303,6 +303,9 @@ def grab_float(text, rx):
 
 
 # ---------------------------------------------------------------------------------------------- input sampling
+LONG_DIAMETER = ("path", "cycle", "grid", "tree", "lollipop")
+
+
 def pick_n(ctx, big_ok=True, cap=None):
     r = ctx.r
     c = r.below(100)
@@ -315,7 +318,9 @@ def pick_n(ctx, big_ok=True, cap=None):
     else:
         n = r.range(601, 2000)
     if ctx.tier == "thorough" and big_ok and r.below(6) == 0:
-        n = r.range(2000, 10000)
+        # long-diameter shapes stay below 2000 nodes: round-synchronous variants need one barrier per level, and a
+        # barrier among 16 threads costs a scheduling quantum on an oversubscribed machine
+        n = r.range(2000, 10000) if ctx.desc["kind"] not in LONG_DIAMETER else r.range(1000, 2000)
     if cap:
         n = min(n, cap)
     return n
@@ -469,6 +474,8 @@ def case_sssp(ctx):
     ref = R.dijkstra(g, src)
     threads = pick_threads(ctx, serial=(algo in SSSP_SERIAL))
     delta = r.pick([None, None, 0, 2, 6, 10, 20])
+    if g.n > 2000 and delta is not None and delta < 6:
+        delta = 10      # one priority level (and, with deltaStepBarrier, one barrier) per 2^delta distance units
     finish_sig(ctx, g, threads, "|w=%s|delta=%s" % (wmode, delta))
     ctx.params.update({"startNode": src, "weights": wmode, "delta": delta})
     path = ctx.p("g.gr")
